@@ -16,6 +16,7 @@ from harness.common import ImplWorker, Model, Report, rng_for, depth
 from harness.impl import parse_model_outcome
 
 KEYS = ("v", "kind", "name", "idx", "expected", "actual", "missing", "valid", "exn")
+FORMS = ("fn", "dc", "nt", "pyd")
 
 
 def in_domain(case: dict) -> bool:
@@ -53,10 +54,34 @@ def run(tier: str, seed: int, rep: Report, model: Model) -> dict:
                 c["args"][p["name"]] = {"k": "int"}
         if in_domain(c):
             bases.append(c)
+    # tuple-typed fields (plain and annotated elements in any position, optional elements): the three forms dltype decorates itself
+    ntup = 0
+    tries = 0
+    while ntup < n // 3 and tries < n * 4:
+        tries += 1
+        c = GC.gen_case(rnd, with_provider=0, with_ret=0, tuples=0.6, optionals=0.2, plain=0.15)
+        if not any(p["hint"]["k"] == "tuple" for p in c["params"]):
+            continue
+        k = rnd.random()
+        if k > 0.4:
+            p = GC.perturb(rnd, c)
+            if p:
+                c = p[0]
+        for p in c["params"]:
+            if p["hint"]["k"] == "plain":
+                c["args"][p["name"]] = {"k": "int"}
+        if in_domain(c) and all(isinstance(c["args"][p["name"]], dict) and (p["hint"]["k"] != "tuple" or c["args"][p["name"]].get("k") == "tup") for p in c["params"]):
+            c["forms3"] = True
+            bases.append(c)
+            ntup += 1
+    rep.streams["four_forms"] = len(bases) - ntup
+    rep.streams["tuple_fields_three_forms"] = ntup
     cases = []
     for c in bases:
         names = [p["name"] for p in c["params"]]
-        for form in ("fn", "dc", "nt", "pyd"):
+        for form in FORMS:
+            if form == "pyd" and c.get("forms3"):
+                form = "fn"   # placeholder keeping four slots per base: the function form twice
             order = list(names)
             rnd.shuffle(order)
             cases.append({"form": form, "fields": [{"name": p["name"], "hint": p["hint"]} for p in c["params"]], "values": dict(c["args"]),
